@@ -22,7 +22,11 @@ RULE = ("cases = (type-consistent nested trees, depth <= 4, for the nine levels 
         "permitted order of the public load calls with constructor arguments, redundant loads and merge=False mixed in; "
         "modifications through attribute/item writes before and after load_shell_env); plus the enumeration of all 36 "
         "level pairs x depth 1-3 x {disjoint, overlapping leaf, overlapping section} and all 15 subsets of candidate "
-        "suffixes per file location, FORMAT METAMORPHOSIS (one assignment of trees realised with yaml / yml / json / py for all "
+        "suffixes per file location, CANDIDATES (every location x every non-empty subset of suffix candidates present at once x what the first "
+        "existing one holds: settings, or a blank file - zero-byte, whitespace, comment-only, `---`, `null`, `~`, `{}` - or an unparsable "
+        "zero-byte .json; later candidates hold different settings), level contents with SHARED sub-objects (one dict object at two paths, "
+        "depth 1-3: caller dicts, YAML anchor/alias, a shared module-level object in a .py file) in the levels, history and formats "
+        "families, FORMAT METAMORPHOSIS (one assignment of trees realised with yaml / yml / json / py for all "
         "file levels and with each file level alone as .py: every rendering must satisfy the property and all must give the same "
         "view; key vocabulary with one / two leading underscores, trailing underscores, dunder-like names at top level and nested; "
         "don't-care: top-level `__*` names in a .py file), HISTORIES on one Config object (levels loaded, replaced by different content, emptied / unloaded "
@@ -41,6 +45,9 @@ ASSUMPTIONS = ["level contents are type-consistent (a path is a section in every
                "format independence is not judged for TOP-LEVEL names starting with two underscores in a Python-format file "
                "(indistinguishable from the module's own specials; documented to be stripped); file parsing itself is outside the "
                "Lean model (parsers trusted) - the format-metamorphosis family is the tie",
+               "what an UNPARSABLE first candidate (zero-byte .json) does is not constrained (the clean code raises JSONDecodeError); only "
+               "that no later candidate is consulted; level values are trees in the Lean model - object sharing inside a level is "
+               "outside it, the shared-sub-object families are the tie",
                "between a load with merge=False and the next merging operation the merged view is not judged (merging was deferred by the caller)"]
 LEVEL_TEXT = ("Lean 4 proofs (get_merge_precedence for n levels and every key path, all_defined_visible, sections_union, "
               "merge_never_raises, first_existing_suffix, load_order_irrelevant) about the model of Config.merge / merge_dicts / "
@@ -107,6 +114,110 @@ def gen_level(rng, schema, p_in=0.55):
     return out
 
 
+TWIN_KEYS = ["tw", "tw2"]
+BLANKS = {"yaml": ["zero", "ws", "comment", "dashes", "null", "tilde", "braces"],
+          "yml": ["zero", "ws", "comment", "dashes", "null", "tilde", "braces"],
+          "json": ["null", "braces"], "py": ["zero", "comment"]}
+BLANK_TEXT = {"zero": "", "ws": "  \n\n", "comment": "# nothing here\n", "dashes": "---\n", "null": "null\n", "tilde": "~\n",
+              "braces": "{}\n"}
+
+
+def get_at(tree, path):
+    cur = tree
+    for k in path:
+        if not isinstance(cur, dict) or k not in cur:
+            return None
+        cur = cur[k]
+    return cur
+
+
+def add_twins(rng, schema):
+    """give some section of the schema a twin: a second key (under the root or another section) with the SAME
+    sub-schema, so that a level can hold one dict object at both paths.  -> list of [path, twin path]"""
+    secs = [p for p in sections(schema) if len(p) <= 3]
+    twins = []
+    for _ in range(rng.choice([1, 1, 2])):
+        if not secs:
+            break
+        pa = rng.choice(secs)
+        parents = [()] + [p for p in secs if len(p) <= 2 and p[:len(pa)] != pa]
+        par = rng.choice(parents) if not twins else ()  # (a later twin never lands inside an earlier one)
+        holder = get_at(schema, par)
+        key = next((k for k in TWIN_KEYS if k not in holder), None)
+        if key is None:
+            continue
+        holder[key] = copy.deepcopy(get_at(schema, pa))
+        twins.append([list(pa), list(par) + [key]])
+    return twins
+
+
+def gen_schema_tw(rng, need_leaves=False):
+    while True:
+        schema = gen_schema(rng)
+        twins = add_twins(rng, schema) if rng.random() < 0.4 else []
+        if schema_ok(schema) and (not need_leaves or list(leaves(schema))):
+            return schema, twins
+
+
+def gen_level_sh(rng, schema, twins, p_in=0.55):
+    """a level tree (expanded) plus the pairs of paths at which the real data holds ONE shared dict object"""
+    tree = gen_level(rng, schema, p_in)
+    shares = []
+    for pa, pb in twins:
+        src = get_at(tree, pa)
+        if isinstance(src, dict) and src and rng.random() < 0.65:
+            cur = tree
+            ok = True
+            for k in pb[:-1]:
+                if not isinstance(cur.setdefault(k, {}), dict):
+                    ok = False
+                    break
+                cur = cur[k]
+            if ok and get_at(tree, pa) is not None:
+                cur[pb[-1]] = copy.deepcopy(get_at(tree, pa))
+                shares.append([pa, pb])
+    return tree, shares
+
+
+def build_sh(tagged, shares):
+    """real data for a tagged tree, with one dict OBJECT at both paths of every share"""
+    data = build(tagged)
+    for pa, pb in shares or []:
+        src = get_at(data, pa)
+        holder = get_at(data, pb[:-1])
+        if isinstance(src, dict) and isinstance(holder, dict):
+            holder[pb[-1]] = src
+    return data
+
+
+def py_render(data):
+    """Python-format config file; a dict object occurring more than once becomes ONE module-level object that is
+    referenced from every place (`__sharedN`: double-underscore names are not settings)"""
+    counts = {}
+
+    def walk(o):
+        if isinstance(o, dict):
+            counts[id(o)] = counts.get(id(o), 0) + 1
+            if counts[id(o)] == 1:
+                for v in o.values():
+                    walk(v)
+    walk(data)
+    names, lines = {}, []
+
+    def expr(o):
+        if isinstance(o, dict):
+            if counts.get(id(o), 0) > 1 and o is not data:
+                if id(o) not in names:
+                    body = "{" + ", ".join("%r: %s" % (k, expr(v)) for k, v in o.items()) + "}"
+                    names[id(o)] = "__shared%d" % len(names)
+                    lines.append("%s = %s" % (names[id(o)], body))
+                return names[id(o)]
+            return "{" + ", ".join("%r: %s" % (k, expr(v)) for k, v in o.items()) + "}"
+        return repr(o)
+    top = ["%s = %s" % (k, expr(v)) for k, v in data.items()]
+    return "".join(l + "\n" for l in lines + top)
+
+
 def overlay(base, upd):
     out = copy.deepcopy(base)
     for k, v in upd.items():
@@ -133,15 +244,18 @@ def env_value(rng, ty):
 
 
 def gen_case(rng):
-    while True:
-        schema = gen_schema(rng)
-        if schema_ok(schema):
-            break
-    levels = {}
+    schema, twins = gen_schema_tw(rng)
+    levels, shares = {}, {}
     for lvl in ORDER:
         if lvl in ("env", "modifications"):
             continue
-        levels[lvl] = tag(gen_level(rng, schema)) if rng.random() < 0.7 else None
+        if rng.random() < 0.7:
+            t, sh = gen_level_sh(rng, schema, twins)
+            levels[lvl] = tag(t)
+            if sh:
+                shares[lvl] = sh
+        else:
+            levels[lvl] = None
     mods_a = gen_level(rng, schema, 0.3) if rng.random() < 0.5 else {}
     mods_b = gen_level(rng, schema, 0.3) if rng.random() < 0.6 else {}
     files = {}
@@ -157,6 +271,14 @@ def gen_case(rng):
                     f["decoys"].append(SUFFIXES[j])
                 elif r < 0.45:
                     f["broken"].append(SUFFIXES[j])
+        if rng.random() < 0.12:
+            # the first existing candidate holds NO settings (the level is empty); later candidates must not be consulted
+            levels[lvl] = {}
+            shares.pop(lvl, None)
+            f["blank"] = rng.choice(BLANKS[f["suffix"]])
+            if lvl != "runtime" and i < 3 and not f["decoys"]:
+                f["decoys"].append(SUFFIXES[rng.randrange(i + 1, 4)])
+                f["broken"] = [x for x in f["broken"] if x not in f["decoys"]]
         files[lvl] = f
     # the environment names settings that exist in the other levels when load_shell_env runs
     at_load = {}
@@ -185,7 +307,7 @@ def gen_case(rng):
     steps += rng.sample(["system", "user", "project", "runtime"], rng.choice([0, 0, 1, 2]))  # redundant loads
     rng.shuffle(steps)
     nomerge = [rng.random() < 0.25 for _ in steps]
-    return {"kind": "levels", "schema": schema, "levels": levels, "files": files, "modsA": tag(mods_a), "modsB": tag(mods_b),
+    return {"kind": "levels", "schema": schema, "levels": levels, "shares": shares, "files": files, "modsA": tag(mods_a), "modsB": tag(mods_b),
             "environ": environ, "ctor": ctor, "steps": steps, "nomerge": nomerge, "style": rng.randrange(1 << 16)}
 
 
@@ -413,14 +535,16 @@ def oracle_program(case, seen, exc, base):
 
 # ------------------------------------------------------------------ running the real code
 
-def write_file(path, suffix, data):
-    if suffix in ("yaml", "yml"):
+def write_file(path, suffix, data, blank=None):
+    if blank is not None:
+        text = BLANK_TEXT[blank]  # an existing file that holds no settings
+    elif suffix in ("yaml", "yml"):
         from invoke.vendor import yaml
-        text = yaml.safe_dump(data)
+        text = yaml.safe_dump(data)  # a dict object occurring twice becomes an anchor / alias pair
     elif suffix == "json":
         text = json.dumps(data)
     else:
-        text = "".join("%s = %r\n" % kv for kv in data.items())
+        text = py_render(data)
     with open(path, "w") as f:
         f.write(text)
 
@@ -462,14 +586,15 @@ def run_levels(case):
             os.makedirs(d)
         prefixes = {"system": os.path.join(dirs["system"], "invoke."), "user": os.path.join(dirs["user"], ".invoke."),
                     "project": os.path.join(dirs["project"], "invoke.")}
-        lv = {l: (build(t) if t is not None else None) for l, t in case["levels"].items()}
+        sh = case.get("shares") or {}
+        lv = {l: (build_sh(t, sh.get(l)) if t is not None else None) for l, t in case["levels"].items()}
         rt_path = None
         for lvl, f in case["files"].items():
             if lvl == "runtime":
                 rt_path = os.path.join(root, "runtime_conf." + f["suffix"])
-                write_file(rt_path, f["suffix"], lv[lvl])
+                write_file(rt_path, f["suffix"], lv[lvl], f.get("blank"))
                 continue
-            write_file(prefixes[lvl] + f["suffix"], f["suffix"], lv[lvl])
+            write_file(prefixes[lvl] + f["suffix"], f["suffix"], lv[lvl], f.get("blank"))
             for s in f["decoys"]:
                 write_file(prefixes[lvl] + s, s, {"decoy": s})
             for s in f["broken"]:
@@ -649,6 +774,9 @@ def replay(case):
         got = run_suffix(case)
         why = oracle_suffix(case, got)
         return why is None, why or "ok (%s)" % got
+    if case["kind"] == "candidates":
+        why = oracle_candidates(case, *run_candidates(case))
+        return why is None, why or "ok"
     if case["kind"] == "formats":
         why = check_formats(case)
         return why is None, why or "ok"
@@ -670,28 +798,31 @@ HIST_CODE = {"defaults": "d", "collection": "c", "system": "s", "user": "u", "pr
 
 
 def gen_history(rng):
-    while True:
-        schema = gen_schema(rng)
-        if schema_ok(schema) and list(leaves(schema)):
-            break
+    schema, twins = gen_schema_tw(rng, need_leaves=True)
+
+    def level_op(lvl, p_in, **kw):
+        t, sh = gen_level_sh(rng, schema, twins, p_in)
+        op = dict({"op": lvl, "tree": tag(t)}, **kw)
+        if sh:
+            op["shares"] = sh
+        return op
     ops = []
     for lvl in ("system", "user"):
         if rng.random() < 0.5:
-            ops.append({"op": lvl, "tree": tag(gen_level(rng, schema)), "suffix": rng.choice(SUFFIXES)})
+            ops.append(level_op(lvl, 0.55, suffix=rng.choice(SUFFIXES)))
     n = rng.randint(4, 9)
     for _ in range(n):
         r = rng.random()
         if r < 0.45:
             lvl = rng.choice(["defaults", "collection", "overrides"])
-            t = {} if rng.random() < 0.25 else gen_level(rng, schema, rng.choice([0.3, 0.6, 0.9]))
-            ops.append({"op": lvl, "tree": tag(t)})
+            ops.append({"op": lvl, "tree": {}} if rng.random() < 0.25 else level_op(lvl, rng.choice([0.3, 0.6, 0.9])))
         elif r < 0.75:
             lvl = rng.choice(["project", "runtime"])
             if rng.random() < 0.3:
                 # unloaded again: the path / location is un-set (None), or the location has no config file
                 ops.append({"op": lvl, "tree": None, "unset": lvl == "runtime" or rng.random() < 0.5})
             else:
-                ops.append({"op": lvl, "tree": tag(gen_level(rng, schema, rng.choice([0.3, 0.6, 0.9]))), "suffix": rng.choice(SUFFIXES)})
+                ops.append(level_op(lvl, rng.choice([0.3, 0.6, 0.9]), suffix=rng.choice(SUFFIXES)))
         else:
             lv = list(leaves(schema))
             p, ty = rng.choice(lv)
@@ -790,7 +921,7 @@ def run_history(case):
                 k = op["op"]
                 mk = {"merge": False} if op.get("merge") is False else {}
                 if k in ("defaults", "collection", "overrides"):
-                    data = build(op["tree"])
+                    data = build_sh(op["tree"], op.get("shares"))
                     held.append((k, i, data, copy.deepcopy(data)))
                     getattr(c, "load_" + k)(data, **mk)
                 elif k == "merge":
@@ -798,20 +929,20 @@ def run_history(case):
                 elif k in ("system", "user"):
                     stem = os.path.join(sysd, "invoke.") if k == "system" else os.path.join(userd, ".invoke.")
                     if not any(f.startswith(os.path.basename(stem)) for f in os.listdir(os.path.dirname(stem))):
-                        write_file(stem + op["suffix"], op["suffix"], build(op["tree"]))
+                        write_file(stem + op["suffix"], op["suffix"], build_sh(op["tree"], op.get("shares")))
                     getattr(c, "load_" + k)(**mk)
                 elif k == "project":
                     d = os.path.join(root, "proj%d" % i)
                     os.makedirs(d)
                     if op["tree"] is not None:
-                        write_file(os.path.join(d, "invoke." + op["suffix"]), op["suffix"], build(op["tree"]))
+                        write_file(os.path.join(d, "invoke." + op["suffix"]), op["suffix"], build_sh(op["tree"], op.get("shares")))
                     c.set_project_location(None if op.get("unset") else d)
                     c.load_project(**mk)
                 elif k == "runtime":
                     path = None
                     if op["tree"] is not None:
                         path = os.path.join(root, "rt%d.%s" % (i, op["suffix"]))
-                        write_file(path, op["suffix"], build(op["tree"]))
+                        write_file(path, op["suffix"], build_sh(op["tree"], op.get("shares")))
                     c.set_runtime_path(path)
                     c.load_runtime(**mk)
                 elif k == "write":
@@ -910,15 +1041,19 @@ def history_line(case):
 def gen_formats_case(rng):
     """one assignment of trees to the levels; it is then realised with every supported format for the file levels"""
     while True:
-        schema = gen_schema(rng)
-        if not schema_ok(schema):
-            continue
-        levels = {}
+        schema, twins = gen_schema_tw(rng)
+        levels, shares = {}, {}
         for lvl in ORDER:
             if lvl in ("env", "modifications"):
                 continue
             p = 0.8 if lvl in FILE_LEVELS else 0.4
-            levels[lvl] = tag(gen_level(rng, schema, 0.7)) if rng.random() < p else None
+            if rng.random() < p:
+                t, sh = gen_level_sh(rng, schema, twins, 0.7)
+                levels[lvl] = tag(t)
+                if sh:
+                    shares[lvl] = sh
+            else:
+                levels[lvl] = None
         if any(levels[l] for l in FILE_LEVELS):
             break
     at_load = {}
@@ -930,7 +1065,7 @@ def gen_formats_case(rng):
         ty = schema_type(schema, p)
         if ty in ENV_TYPES and rng.random() < 0.2:
             environ["INVOKE_" + var_of(p)] = env_value(rng, ty)
-    return {"kind": "formats", "levels": levels, "environ": environ}
+    return {"kind": "formats", "levels": levels, "shares": shares, "environ": environ}
 
 
 def format_variants(case):
@@ -944,7 +1079,8 @@ def format_variants(case):
 
 def as_levels_case(case, files):
     steps = ["collection", "project", "runtime", "defaults", "overrides", "system", "user", "modsA"]
-    return {"kind": "levels", "schema": None, "levels": case["levels"], "files": files, "modsA": {}, "modsB": {},
+    return {"kind": "levels", "schema": None, "levels": case["levels"], "shares": case.get("shares") or {}, "files": files,
+            "modsA": {}, "modsB": {},
             "environ": case["environ"], "ctor": {"defaults": False, "overrides": False, "project": False, "runtime": False, "lazy": True},
             "steps": steps, "nomerge": [False] * len(steps), "style": 0}
 
@@ -971,6 +1107,77 @@ def check_formats(case):
             b = {p: typed(v) for p, v in leaves(without_roots(view, roots))}
             diff = sorted(set(a.items()) ^ set(b.items()))[:3]
             return "the same level contents give a different view as %s than as %s: %r" % (label, first[0], diff)
+    return None
+
+
+# ------------------------------------------------------------------ several suffix candidates at once, first one possibly blank
+
+def candidate_cases():
+    """every location x every non-empty subset of suffix candidates x what the FIRST existing candidate holds:
+    real settings, or one of the ways a file can exist and hold none; `malformed` = a zero-byte .json (not valid JSON)"""
+    out = []
+    for loc in ("system", "user", "project"):
+        for n in range(1, 5):
+            for present in itertools.combinations(SUFFIXES, n):
+                first = present[0]
+                for kind in ["tree"] + BLANKS[first] + (["malformed"] if first == "json" else []):
+                    out.append({"kind": "candidates", "loc": loc, "present": list(present), "first": kind})
+    return out
+
+
+def run_candidates(case):
+    """-> (view | None, exception class | None)"""
+    from invoke.config import Config
+    root = tempfile.mkdtemp(prefix="verif_c03_")
+    try:
+        d = os.path.join(root, "loc")
+        os.makedirs(d)
+        stem = os.path.join(d, ".invoke." if case["loc"] == "user" else "invoke.")
+        for i, sfx in enumerate(case["present"]):
+            if i == 0 and case["first"] == "malformed":
+                open(stem + sfx, "w").close()
+            elif i == 0 and case["first"] != "tree":
+                write_file(stem + sfx, sfx, {}, blank=case["first"])
+            else:
+                write_file(stem + sfx, sfx, {"which": sfx, "only_" + sfx: {"x": 1}})
+        none = os.path.join(root, "none", "")
+        with replaced_environ({}):
+            kw = {"defaults": {"which": "defaults", "base": {"x": 0}}, "system_prefix": none, "user_prefix": none + ".", "lazy": True}
+            if case["loc"] == "system":
+                kw["system_prefix"] = os.path.join(d, "")
+            elif case["loc"] == "user":
+                kw["user_prefix"] = os.path.join(d, ".")
+            c = Config(**kw)
+            try:
+                if case["loc"] == "project":
+                    c.set_project_location(d)
+                getattr(c, "load_" + case["loc"])()
+            except Exception as e:  # noqa
+                return None, type(e).__name__
+            return plain(c), None
+    finally:
+        shutil.rmtree(root, ignore_errors=True)
+
+
+def oracle_candidates(case, view, exc):
+    first = case["present"][0]
+    later = ["only_" + sfx for sfx in case["present"][1:]]
+    if case["first"] == "malformed":
+        # the property does not say what an unparsable first candidate does, only that later ones are not consulted
+        if view is not None and any(k in view for k in later):
+            return "the first existing candidate (%s, unparsable) was passed over and a later candidate was read" % first
+        return None
+    if exc is not None:
+        return "loading raised %s" % exc
+    want = {"which": "defaults", "base": {"x": 0}}
+    if case["first"] == "tree":
+        want = overlay(want, {"which": first, "only_" + first: {"x": 1}})
+    if enc_tree(view, canon=True) != enc_tree(want, canon=True):
+        got = [k for k in later if k in view]
+        if got:
+            return ("candidates %r exist, the first one (%s) holds %s: the level must be exactly that file, but a LATER candidate was "
+                    "consulted (%s)" % (case["present"], first, "no settings" if case["first"] != "tree" else "settings", got[0][5:]))
+        return "candidates %r exist, first holds %s: view is %r" % (case["present"], case["first"], view)
     return None
 
 # ------------------------------------------------------------------ model side
@@ -1021,6 +1228,13 @@ def run(ctx):
                 out.hist["fmt:" + f["suffix"]] += 1
                 out.hist["decoys:%d" % len(f["decoys"] + f["broken"])] += 1
             out.hist["env_vars:%d" % min(len(c["environ"]), 3)] += 1
+            out.hist["blank_first_candidate:%d" % min(2, sum(1 for f in c["files"].values() if f.get("blank")))] += 1
+            sh = c.get("shares") or {}
+            out.hist["levels_with_shared_subobject:%d" % min(3, len(sh))] += 1
+            for lvl, pairs in sh.items():
+                out.hist["shared_via:" + ("caller dict" if lvl not in c["files"] else c["files"][lvl]["suffix"] + " file")] += 1
+                for pa, pb in pairs:
+                    out.hist["shared_depth:%d" % min(len(pa), len(pb))] += 1
             out.hist["mods:" + ("A" if c["modsA"] else "-") + ("B" if c["modsB"] else "-")] += 1
             for k, v in c["ctor"].items():
                 out.hist["ctor_%s:%d" % (k, v)] += 1
@@ -1071,6 +1285,7 @@ def run(ctx):
         out.hist["history_emptied:%d" % min(2, sum(1 for op in c["ops"] if op["op"] in HIST_CODE and (op.get("tree") is None or op.get("tree") == {})))] += 1
         out.hist["history_env:%d" % ("env" in kinds)] += 1
         out.hist["history_unset:%d" % min(2, sum(1 for op in c["ops"] if is_unset(op)))] += 1
+        out.hist["history_ops_with_shared_subobject:%d" % min(3, sum(1 for op in c["ops"] if op.get("shares")))] += 1
         out.hist["history_deferred_merges:%d" % min(3, sum(1 for op in c["ops"] if op.get("merge") is False))] += 1
         ei = kinds.index("env") if "env" in kinds else None
         if ei is not None:
@@ -1083,10 +1298,27 @@ def run(ctx):
         why = oracle_history(c, views, exc, changed)
         if why:
             out.fail(c, why)
+    cands = candidate_cases()
+    cmodel = drv.run(["suffix " + ",".join(c["present"]) for c in cands]) if ctx.model_ok else [None] * len(cands)
+    for c, m in zip(cands, cmodel):
+        view, exc = run_candidates(c)
+        out.case(c, len(c["present"]) > 1)
+        out.hist["candidates"] += 1
+        out.hist["candidates_first:" + ("settings" if c["first"] == "tree" else "unparsable" if c["first"] == "malformed" else "blank")] += 1
+        if m is not None and view is not None:
+            out.traces += 1
+            marks = [k[5:] for k in view if k.startswith("only_")]
+            got = marks[0] if len(marks) == 1 else (c["present"][0] if not marks and c["first"] != "tree" else "none:%r" % marks)
+            if got != m:
+                out.disagree(c, got, m)
+        why = oracle_candidates(c, view, exc)
+        if why:
+            out.fail(c, why)
     for _ in range(ctx.n(160, 3000)):
         c = gen_formats_case(rng)
         out.case(c, True)
         out.hist["formats"] += 1
+        out.hist["formats_shared_subobject:%d" % bool(c.get("shares"))] += 1
         tops = set()
         for l in FILE_LEVELS:
             if c["levels"].get(l) is not None:
